@@ -548,7 +548,14 @@ func specCCFBMask(b []byte, p CCFeedbackReport) []byte {
 func specListScope(ps []Packet) bool {
 	for _, p := range ps {
 		if t, ok := p.(*TransportLayerCC); ok {
-			n := int(t.packetLen())
+			n := 20 + 2*len(t.PacketChunks)
+			for _, d := range t.RecvDeltas {
+				if d != nil && d.Type == TypeTCCPacketReceivedSmallDelta {
+					n++
+				} else {
+					n += 2
+				}
+			}
 			if int(t.Header.Length) != t.MarshalSize()/4-1 || t.Header.Padding != (n%4 != 0) || t.Header.Count != FormatTCC || t.Header.Type != TypeTransportSpecificFeedback {
 				return false
 			}
